@@ -142,9 +142,19 @@ func VS_C07_stop_protocol() {
 	}
 
 	vrtFinal("every-stop-call-returns", func() bool { return g.stopADone == 1 && g.stopBDone == 1 })
+	// the winner is the one call that performs the shutdown; with an external
+	// context cancellation the guardian goroutine may be that one, in which case
+	// both callers are told already-stopped
+	external := vrtParam("cancel", 0) == 1
 	vrtFinal("exactly-one-stop-wins", func() bool {
 		a, b := g.stopAErr, g.stopBErr
-		return (a == 1) != (b == 1) && a != 3 && b != 3
+		if a == 3 || b == 3 {
+			return false
+		}
+		if a == 1 && b == 1 {
+			return external
+		}
+		return a == 1 || b == 1
 	})
 	vrtFinal("status-is-stopped", func() bool { return sys.status == stop })
 }
